@@ -349,6 +349,7 @@ func beamSearchShape(c *Ctx, r *Report, rule string) {
 			op  token.Token // normalised: (candidate|distance|Len) op (bound)
 		}
 		var stop *ssa.If
+		var candQ ssa.Value
 		var admits, fills []test
 		for _, ifi := range allIfs(f) {
 			cm, ok := resolveCmp(ifi.Cond, 0)
@@ -378,6 +379,7 @@ func beamSearchShape(c *Ctx, r *Report, rule string) {
 			}
 			if isStop {
 				stop = ifi
+				candQ = cq
 				// the stop side is the one that does not expand the candidate
 				stopSide := -1
 				for sd := 0; sd < 2; sd++ {
@@ -427,6 +429,114 @@ func beamSearchShape(c *Ctx, r *Report, rule string) {
 				try(a, fl, false, true)
 				try(fl, a, true, false)
 			}
+		}
+		// whatever enters the beam is also queued for expansion: from the admission block no way out of the admitted region avoids
+		// a push of the admitted item onto the candidate queue (the one the stop test pops from)
+		if candQ != nil {
+			var resArg ssa.Value
+			for _, in := range pushBlk.Instrs {
+				if cl, ok := in.(*ssa.Call); ok {
+					if rv, isPush := invokeOn(cl, "Push"); isPush && sameQueue(rv, resQ) {
+						if a := cl.Call.Args; len(a) > 0 {
+							resArg = through(a[len(a)-1])
+						}
+					}
+				}
+			}
+			pushesCand := func(in ssa.Instruction) bool {
+				cl, ok := in.(*ssa.Call)
+				if !ok {
+					return false
+				}
+				rv, isPush := invokeOn(cl, "Push")
+				if !isPush || !sameQueue(rv, candQ) {
+					return false
+				}
+				a := cl.Call.Args
+				return len(a) > 0 && (resArg == nil || through(a[len(a)-1]) == resArg)
+			}
+			// the one legitimate way round the push: the item is already strictly farther than the (trimmed) beam's worst — the
+			// stop test would never let it be expanded
+			type edge struct {
+				b  *ssa.BasicBlock
+				sd int
+			}
+			afterResultPush := func(in ssa.Instruction) bool {
+				seenPush := false
+				for _, z := range pushBlk.Instrs {
+					if cl, ok := z.(*ssa.Call); ok {
+						if rv, isPush := invokeOn(cl, "Push"); isPush && sameQueue(rv, resQ) {
+							seenPush = true
+						}
+					}
+					if z == in {
+						return seenPush
+					}
+				}
+				return false
+			}
+			farther := map[edge]bool{}
+			for _, ifi := range allIfs(f) {
+				if !pushBlk.Dominates(ifi.Block()) || len(ifi.Block().Succs) != 2 {
+					continue
+				}
+				cm, ok := resolveCmp(ifi.Cond, 0)
+				if !ok || cm.x.isLen || cm.y.isLen {
+					continue
+				}
+				op := cm.op
+				var bound ssa.Value
+				switch {
+				case isDistance(cm.x.v) && isLower(cm.y.v):
+					bound = cm.y.v
+				case isDistance(cm.y.v) && isLower(cm.x.v):
+					op, bound = flipCmp(op), cm.x.v
+				default:
+					continue
+				}
+				// the bound must have been read after the item entered the beam (the bound taken at the top of the iteration says
+				// nothing about an item admitted because the beam was not full)
+				bi, isI := through(bound).(ssa.Instruction)
+				if !isI || !pushBlk.Dominates(bi.Block()) || (bi.Block() == pushBlk && !afterResultPush(bi)) {
+					continue
+				}
+				for sd := 0; sd < 2; sd++ {
+					if effOn(op, sd) == token.GTR {
+						farther[edge{ifi.Block(), sd}] = true
+					}
+				}
+			}
+			var at ssa.Instruction
+			escapes := false
+			seenB := map[*ssa.BasicBlock]bool{}
+			var dfs func(b *ssa.BasicBlock)
+			dfs = func(b *ssa.BasicBlock) {
+				if seenB[b] || escapes {
+					return
+				}
+				seenB[b] = true
+				for _, in := range b.Instrs {
+					if pushesCand(in) || instrNoReturn(in) {
+						return
+					}
+				}
+				for sd, sb := range b.Succs {
+					if farther[edge{b, sd}] {
+						continue
+					}
+					if !pushBlk.Dominates(sb) {
+						escapes, at = true, b.Instrs[len(b.Instrs)-1]
+						return
+					}
+					dfs(sb)
+				}
+			}
+			dfs(pushBlk)
+			where := ""
+			if escapes && at != nil {
+				where = " (a path from the admission leaves at " + c.InstrPos(at) + " without the push)"
+			}
+			r.Check(!escapes, rule, fnName(f), "beam-admit-queues-for-expansion", c.InstrPos(pushBlk.Instrs[0]), "every neighbour admitted to the beam is also pushed onto the candidate queue, unconditionally: while the beam is not full every discovered vertex must be expanded (that is what makes the search of a small collection a full traversal)"+where)
 		}
 		r.Check(orOK, rule, fnName(f), "beam-admit-or-fill", c.InstrPos(admits[0].ifi), "a neighbour is admitted when it is nearer than the farthest result OR the beam is not full yet (with AND a beam that is not full refuses every neighbour farther than its current worst: on a small collection items that belong to the answer are never reached)")
 	}
